@@ -262,7 +262,7 @@ theorem lrParseWith_complete {ts : List Tok} {e : Expr} (d : D 0 ts e) : lrParse
   simp only [List.append_nil] at rn
   have r2 : Reach 1 ⟨[(5, .node e), (0, .bottom)], []⟩ ⟨[(6, .expr e), (0, .bottom)], []⟩ := by
     apply Reach.one
-    rw [step_reduce (p := 1) (by exact hred)]
+    rw [step_reduce (p := 12) (by exact hred)]
     exact reduce1 (act := .evalStart) rfl rfl hgoto
   have hacc : step T ⟨[(6, .expr e), (0, .bottom)], []⟩ = .accept (.expr e) := by
     simp [step, hd6, ha6, col]
